@@ -55,8 +55,16 @@ func Pause(message ...string) {
 
 	manager.message = message[0]
 
-	manager.subscribers.Range(func(key, _ interface{}) bool {
+	manager.subscribers.Range(func(key, _ interface{}) (next bool) {
 		chans := key.(*ControlChans)
+		// A subscriber can unsubscribe (and close its channels) while we iterate,
+		// e.g. a worker exiting during shutdown: sending on its closed PauseCh must not
+		// crash, and the remaining subscribers must still be signaled.
+		defer func() {
+			if recover() != nil {
+				next = true
+			}
+		}()
 		// Send pause signal (non-blocking since PauseCh is buffered).
 		select {
 		case chans.PauseCh <- struct{}{}:
